@@ -74,7 +74,7 @@ def run_cell(args):
         logging.disable(logging.CRITICAL)
         w = World(d, wc['branches'], settings=wc.get('settings'))
         pw = PASSWORDS[cell['pw']]
-        w.install_credentials(pw, host='bitbucket')
+        w.install_credentials(pw, host=cell.get('host', 'bitbucket'))
         res = []
         for st in prefix:
             run_step(w, dict(st), res)
@@ -111,7 +111,7 @@ def run_cell(args):
             'comments': '\n'.join(c.content['raw'] for c in w.mock.Comment.items),
         }
         for name, text in sinks.items():
-            for f in forms(pw):
+            for f in forms(pw) | set(w.extra_secrets):
                 if f and f in text:
                     line = next((ln for ln in text.splitlines() if f in ln), '')
                     out['leaks'].append(dict(sink=name, where=line.replace(f, '<SECRET>')[:220]))
@@ -311,7 +311,13 @@ def check(tier, seed):
         else:
             sel = [c for c in plan if c['outcome'] == 'fail' and (c['k'] * 7 + len(c['pw'])) % 3 == 0] + \
                   [c for c in plan if c['outcome'] == 'hang' and (c['k'] * 5 + len(c['level'])) % 4 == 0]
-        # URL-bearing commands are found in the baseline logs; make sure each is in the plan for hang and fail
+        # the same plan cells on the other hosts' URL builders (GitHub password / GitHub App), a few each
+        extra = []
+        for hostkind in ('github', 'github_app'):
+            for c in [x for x in plan if x['job'] in ('create_branch', 'integrate') and x['k'] in (0, 1, 5, 6, 7)
+                      and x['level'] == 'DEBUG' and x['pw'] == 'url_special']:
+                extra.append(dict(c, host=hostkind))
+        sel += extra if tier == 'thorough' else extra[:12] + extra[-12:]
         with ctx.Pool(16, maxtasksperchild=1) as pool:
             outs = pool.map(run_cell, [(c, scratch, 'x%d' % i) for i, c in enumerate(sel)], chunksize=1)
         gh = github_flows()
